@@ -30,8 +30,15 @@ func VH_C12_snps_arrival() {
 	lines := make([]snpLine, N)
 	exp := "query,SNPs\n"
 	for i := 0; i < N; i++ {
-		lines[i] = snpLine{queryname: "s" + strconv.Itoa(i), snps: []string{"A" + strconv.Itoa(i+1) + "C"}, idx: i}
-		exp += "s" + strconv.Itoa(i) + ",A" + strconv.Itoa(i+1) + "C\n"
+		lines[i] = snpLine{queryname: "s" + strconv.Itoa(i), snps: []string{"A" + strconv.Itoa(i+1) + "C", "G" + strconv.Itoa(i+9) + "T"}, idx: i}
+		if i == 1 {
+			lines[i].snps = []string{}
+		}
+		exp += "s" + strconv.Itoa(i) + ","
+		if i != 1 {
+			exp += "A" + strconv.Itoa(i+1) + "C|G" + strconv.Itoa(i+9) + "T"
+		}
+		exp += "\n"
 	}
 	used := make([]bool, N)
 	ch := make(chan snpLine, N)
